@@ -13,6 +13,8 @@ def handle (line : String) : String :=
       match prop with
       | "C02" => handleC02 inp obs
       | "C16" => handleC16 inp obs
+      | "C17" => handleC17 inp obs
+      | "C11" => handleC11 inp obs
       | _ => { kind := "badcase", detail := s!"unknown property {prop}" }
     v.render id
   | _ => "? badcase 0 - | empty line"
